@@ -560,6 +560,7 @@ class GenConfig:
     p_stream: float = 0.45
     p_expanded: float = 0.3
     use_imported_types: bool = True
+    no_bool_vectors: bool = False   # yardl's C++ ReadVector does not compile for std::vector<bool> (C08, not claimed)
 
     @staticmethod
     def swarm(rng: Rng) -> "GenConfig":
@@ -678,6 +679,10 @@ class PackageGen:
         r = self.structural(t)
         return isinstance(r, Opt) or (isinstance(r, Union)) or isinstance(r, TParam)
 
+    def is_bool(self, t: Type) -> bool:
+        r = self.structural(t)
+        return isinstance(r, Prim) and r.name == "bool"
+
     def bad_case_type(self, t: Type) -> bool:
         """yardl rejects (in the expanded syntax) an optional/union case that is a vector, array or
         map whose element is itself an optional/union; never generate that shape."""
@@ -762,6 +767,8 @@ class PackageGen:
             return self.gen_union(depth, params)
         if kind == "vec":
             inner = self.gen_type(depth - 1, params, allow_param)
+            if self.cfg.no_bool_vectors and self.is_bool(inner):
+                inner = Prim("uint8")
             return Vec(inner, r.randint(1, 4) if r.chance(0.3) else None)
         if kind == "arr":
             return Arr(self.gen_array_elem(), self.gen_dims())
@@ -803,6 +810,8 @@ class PackageGen:
     def arg_ok(self, d, a: Type) -> bool:
         # arguments land in T, T*, T?, K->T positions: T? requires a non-optional argument
         if getattr(d, "_param_in_opt", False) and self.bad_case_type(a):
+            return False
+        if self.cfg.no_bool_vectors and getattr(d, "_param_in_vec", False) and self.is_bool(a):
             return False
         return True
 
@@ -902,6 +911,7 @@ class PackageGen:
         names = self.member_names(nf)
         used_params = set()
         param_in_opt = False
+        param_in_vec = False
         for i in range(nf):
             if generic and i < len(params):
                 # every type parameter must be used
@@ -910,6 +920,7 @@ class PackageGen:
                 t = TParam(p)
                 if shape == "vec":
                     t = Vec(t)
+                    param_in_vec = True
                 elif shape == "opt":
                     t = Opt(t)
                     param_in_opt = True
@@ -921,6 +932,7 @@ class PackageGen:
             fields.append((names[i], t))
         d = Record(name, params, fields)
         d._param_in_opt = param_in_opt
+        d._param_in_vec = param_in_vec
         self.add(d, r.randrange(8))
         if generic:
             self.generic_defs.append(d)
@@ -943,6 +955,7 @@ class PackageGen:
                 t = Opt(t)
             d = Alias(name, (p,), t)
             d._param_in_opt = shape == "opt"
+            d._param_in_vec = shape == "vec"
             self.add(d, r.randrange(8))
             self.generic_defs.append(d)
             return
